@@ -52,7 +52,7 @@ pub const META: Meta = Meta {
     level: "model_checking",
     rule: "BFS over all histories (depth 6 quick / 8 thorough) of {reservation request on connection c, pending accept completes ok/fails, reservation times out, circuit request from connection c to peer p, circuit stage outcome ok/fail (STOP negotiation, deny, accept, close), connection closed} over 5 pre-established connections (P1 x2, P2 x2, P3 x1) against the real relay::Behaviour with limits reservations 2 / per peer 1, circuits 2 / per peer 1; states deduplicated on the full handler-model + circuit-table state (circuit ids by admission rank) + a mirror of the behaviour's reservation map. Non-trivial = states in which at least one reservation or circuit is held.",
     explanation: "Every transition executes the real Behaviour (on_connection_handler_event / on_swarm_event / poll); commands are consumed by an event-level model of the production handler; the four limits are checked in every reached state; an un-deduplicated DFS to a smaller depth re-checks all paths without merging.",
-    assumptions: &["handlers are modelled at event level from the production handler's code (events only in handler states that can produce them)", "deny replies complete immediately (they only generate events)", "5 connections, 3 peers, tiny limits (small-scope hypothesis)", "no rate limiters"],
+    assumptions: &["handlers are modelled at event level from the production handler's code (events only in handler states that can produce them); whether a reservation time-out can be reported while an accept is in flight is taken from a probe of the production handler at the start of the run", "deny replies complete immediately (they only generate events)", "5 connections, 3 peers, tiny limits (small-scope hypothesis)", "no rate limiters"],
 };
 
 const MAX_RES: usize = 2;
@@ -143,6 +143,13 @@ thread_local! {
 }
 fn cnt(f: impl FnOnce(&mut Counters)) {
     CNT.with(|c| f(&mut c.borrow_mut()))
+}
+
+/// calibration against the production handler (see c47_probe): may a reservation time-out be
+/// reported while an accept is in flight? Unset (e.g. on replay) = yes (the permissive reading).
+static TIMEOUT_WHILE_ACCEPTING: std::sync::OnceLock<bool> = std::sync::OnceLock::new();
+fn timeout_while_accepting() -> bool {
+    *TIMEOUT_WHILE_ACCEPTING.get().unwrap_or(&true)
 }
 
 pub struct Sys {
@@ -390,7 +397,7 @@ impl System for Sys {
                 v.push(Act::ResvDone(c, true));
                 v.push(Act::ResvDone(c, false));
             }
-            if self.conns[c].active {
+            if self.conns[c].active && (self.conns[c].pending.is_none() || timeout_while_accepting()) {
                 v.push(Act::ResvTimeout(c));
             }
             if self.circs.len() < MAX_RECORDS {
@@ -551,6 +558,15 @@ pub fn run(ctx: &Ctx) -> Outcome {
             out.violation(bfs::signature_of(&m), m, case.clone());
         }
         return out;
+    }
+    match mc::catch(crate::c47_probe::timeout_reported_while_accept_in_flight) {
+        Ok(Ok(b)) => {
+            let _ = TIMEOUT_WHILE_ACCEPTING.set(b);
+            out.count("probe_handler_reports_timeout_while_accept_in_flight", b as u64);
+            out.notes.push(format!("production handler probe: ReservationTimedOut is {} while an accept is in flight; the handler model follows", if b { "reported" } else { "not reported" }));
+        }
+        Ok(Err(m)) => out.machinery(format!("handler probe failed: {m}")),
+        Err(p) => out.machinery(format!("handler probe panicked: {p}")),
     }
     let depth = ctx.tier.pick(6, 8);
     let (st, v) = bfs::bfs_replay(Sys::new, depth, ctx.tier.pick(400_000, 3_000_000));
